@@ -11,6 +11,10 @@ and returns the probe's canonical result (hex / none / ERR).  check_impl is the 
 it builds a FRESH, equally configured object, replays only the explicit re-configuration steps of the history (setkey,
 setrate — they change the constructor-level configuration by design), runs the probe and demands equality.
 
+`histo` lines ("observe") have the same format but end in a NON-one-shot operation (update / duplex / digest / final …): its
+result legitimately depends on the history, so there is no predicate and no spec column; they compare code and model only and
+tie the scratch-state tracking of the Lean object machines (which steps overwrite which fields) to the real objects.
+
 `hist` lines are also answered by the Lean object model (lean/Model/Objects.lean via lean/Driver/HistD.lean): model column =
 probe after the history on the model, spec column = probe on the fresh model object.  `histp` lines are predicate-only
 (kinds or steps the Lean object model does not cover: Skein, Threefish, CRC helpers, SHAKE helpers): run_impl itself
@@ -24,21 +28,37 @@ GEN_ITEMS = ['ObjectsG']
 RULE = ('op lines = (object kind + constructor arguments, history of <= 3 steps over the per-kind call alphabet [default call, call with '
         'each optional parameter, erroring call, update/streaming step, duplex, setkey/setrate, keystream peek, key-schedule peek, '
         'sibling-instance call, shared-object call, module-singleton call], probe); ALL histories of length <= 2 (quick) / <= 3 (thorough) '
-        'x every probe of the kind, plus seeded longer histories (quick: length 3, thorough: length 4..8); distinct lines; '
+        'with every probe after the short ones and probes in rotation after the longest, plus seeded longer histories (quick: length 3, '
+        'thorough: length 4..8); `histo` observation lines end in a streaming operation and compare code and model only; distinct lines; '
         'non-trivial = the probe returned a value after a non-empty history')
 TRUSTED = ['the fresh object of the predicate is built by the same constructor call from the tokens of the line; explicit re-configuration '
            'steps (HMAC.setkey, Keccak.setrate) are replayed on it, every other step is dropped',
            'module-level singletons are re-created by importlib.reload of their module at the start of every line, so that lines replay exactly',
            'toy block ciphers ToyRot/ToyAff (tools/props/C05.py, mirrored in lean/Model/ToyCipher.lean) drive the real mode classes',
            'CPython object semantics (attribute persistence, generators abandoned half-way, exceptions leaving attributes half-written) are '
-           'modelled in lean/Model/Objects.lean; the theorems quantify over ALL scratch states so imprecision there cannot make them unsound']
+           'modelled in lean/Model/Objects.lean; the theorems quantify over ALL scratch states (for AES / the modes over AES / Salsa20-ChaCha: '
+           'over all states satisfying the cache invariant that every operation is proved to preserve) so imprecision there cannot make them unsound',
+           'tools/gen_items/objects.py (AST inventory of assigned attributes, module singletons, mutable defaults) is trusted to read the source faithfully']
 ASSUMPTIONS = ['python -O (asserts stripped) is out of scope',
-               '`histp` lines (Skein, Threefish, CRC/SHAKE helper functions, Blake2 tree+keylen combinations) are predicate-only: the real '
-               'object after the history is compared with a fresh real object; the Lean driver answers the constant `same` for them',
+               '`histp` lines (Skein, Threefish: no Lean model in the tree yet; CRC/SHAKE/exactsum helper functions; Blake2 calls outside the '
+               'documented parameter domain: salt/pers of a wrong length, keylen > 64) are predicate-only: the real object after the history is '
+               'compared with a fresh real object; the Lean driver answers the constant `same` for them',
                'steps are method calls of the public API; assigning attributes from outside or mutating a returned key schedule is not a call',
                'RC4 is a continuous stream by design and is not part of the property',
+               'Salsa20/ChaCha theorems: messages are byte strings of fewer than 2^70 bytes; the constructor left 16 words in `p` (proved for '
+               'every 16/32-byte key: stream_adm_of_constructor)',
                'ECB/CBC over Nullpadding: dec strips pad.padcnt bits, a number only the last enc on the same object knows (zero padding is not '
-               'self-describing); recorded as known finding C10-nullpad-remove, the admissible paddings are pkcs7/X923/bitpadding/nopadding']
+               'self-describing); recorded as known finding C10-nullpad-remove, the admissible paddings are pkcs7/X923/bitpadding/nopadding',
+               'user-supplied counter objects of CTR (anything but None/bytes -> DefaultCounter) are outside the model']
+LEVEL_TEXT = ('proof: for every object kind with a Lean model (MD4/MD5/SHA-0/1/2, Keccak/SHA3 + keccak_* singletons, MD6, Blake + blake*, Blake2 + '
+              'blake2b/2s, HMAC, TLSH + tlsh, Nilsimsa, AES, DES, TDEA, Serpent, ECB/CBC/CTR/CTS_*, Salsa20, Chacha) the two per-kind theorems '
+              'X_cfg_preserved / X_result_depends_on_cfg and the generic corollary history_independent (one induction over the operation list, '
+              'interleavings with sibling instances / singletons via Machine.pair) are proved at full strength; the state-field inventory of '
+              'the live source is proved equal to the field lists of the state structures. Skein and Threefish: correspondence level only.')
+LEVEL_NOTE = ('the tie between the object machines and the code is the correspondence stream (hist: code/model/fresh-model three-way; histo: '
+              'scratch-state tracking through streaming operations) plus the regenerated attribute inventory; one known finding '
+              '(Nullpadding as the padding class of ECB/CBC) with a kernel-checked counter-example theorem')
+TECHNIQUE = 'Lean 4 state machines per object kind + generic history induction; AST attribute inventory; exhaustive short-history differential check'
 LINE_TIMEOUT = 120
 
 
@@ -291,7 +311,7 @@ class ModeFam:
         from props import C05
         from crysp import mode as MO, padding as PA
         cid, n, key = cfg[0], int(cfg[1]), unhx(cfg[2])
-        c = C05.TOYS[cid](n, key) if cid in C05.TOYS else new_cipher(cid, [cfg[2], hx(bytes(range(16)))])
+        c = C05.TOYS[cid](n, key) if cid in C05.TOYS else new_cipher(cid, [cfg[2], '-', '-'] if cid == 'TDEA' else [cfg[2], hx(bytes(range(16)))])
         if kind in ('ECB', 'CTS_ECB'):
             o = getattr(MO, kind)(c, pad=getattr(PA, cfg[3])); pad = cfg[3]
             sib = MO.CBC(c, bytes(c.blocksize // 8), pad=getattr(PA, pad if kind == 'ECB' else 'pkcs7'))
@@ -366,7 +386,7 @@ def parse(line):
     parts = [p.split() for p in line.split(' | ')]
     head = parts[0]
     probe = parts[-1]
-    if len(parts) < 2 or probe[0] != 'PROBE' or head[0] not in ('hist', 'histp'): raise RuntimeError('malformed C10 line')
+    if len(parts) < 2 or probe[0] != 'PROBE' or head[0] not in ('hist', 'histp', 'histo'): raise RuntimeError('malformed C10 line')
     return head[0], head[1], head[2:], parts[1:-1], probe[1:]
 
 
@@ -430,6 +450,7 @@ def run_impl(line):
 
 def check_impl(line, res):
     op, kind, cfg, steps, probe = parse(line)
+    if op == 'histo': return None
     if op == 'histp':
         return None if res == 'same' else '%s: the probe %s depends on the history: %s (after the history | on a fresh object)' % (kind, ' '.join(probe), res[5:200])
     f = fresh_result(line)
@@ -499,7 +520,7 @@ def blake2_alpha(size, modelled=True):
     salt, pers = hx(msg(l, 9)), hx(msg(l, 10))
     tree = 'fanout=2,depth=2,leafl=5,noffset=7,ndepth=1,inner=3'
     A = [H('call', hx(mb), '-'), H('call', hx(mb), 'outlen=20'), H('call', hx(mb), 'salt=' + salt), H('call', hx(M3), 'pers=' + pers),
-         H('call', hx(M3), tree), H('call', hx(M3), 'outlen=99'), H('call', hx(M3), 'keylen=5'), H('call', hx(M3), 'salt=x0102'),
+         H('call', hx(M3), tree), H('call', hx(M3), 'outlen=99'), H('call', hx(M3), 'keylen=5')] + ([] if modelled else [H('call', hx(M3), 'salt=x0102'), H('call', hx(M3), 'keylen=3,fanout=0,depth=255,outlen=1'), H('call', hx(M3), 'keylen=99'), H('initstate', 'pers=x01')]) + [
          H('update', hx(mx), 'F'), H('update', hx(M3), 'T'), H('update', hx(M3), 'F'), H('initstate', 'outlen=7'),
          H('sib.call', hx(mb), 'outlen=20')]
     P = [H('call', hx(M3), '-'), H('call', hx(mb), '-'), H('call', hx(mb), 'outlen=20'), H('call', hx(M3), 'salt=%s,pers=%s' % (salt, pers)), H('call', hx(M3), 'outlen=99')]
@@ -618,6 +639,7 @@ def universe(tier):
     for size in (512, 256):
         add('hist', 'Blake2', [size], blake2_alpha(size))
     add('hist', 'blake2b', [], blake2_alpha(512))
+    add('histp', 'Blake2', [512], blake2_alpha(512, False)); add('histp', 'blake2s', [], blake2_alpha(256, False))
     if full: add('hist', 'blake2s', [], blake2_alpha(256))
     add('histp', 'Skein', [256, 256, '-', '-', '-', 'l0,0,0'], skein_alpha(None))
     add('histp', 'Skein', [512, 512, hx(b'kk'), hx(b'p'), hx(b'n'), 'l0,0,0'], skein_alpha(None))
@@ -666,6 +688,13 @@ def universe(tier):
     return U
 
 
+OBSERVERS = ('update', 'duplex', 'digest', 'final', 'h.update')
+
+def observers(A):
+    """the streaming / stateful operations of an alphabet whose return value shows the scratch state"""
+    return [a for a in A if a.split()[0] in OBSERVERS]
+
+
 def mkline(op, kind, cfg, steps, probe):
     return ' | '.join([' '.join([op, kind] + cfg)] + list(steps) + ['PROBE ' + probe])
 
@@ -690,6 +719,12 @@ def cases(tier, rng):
                 for k in range(per):
                     yield mkline(op, kind, cfg, seq, P[(j + k + sum(map(len, seq))) % len(P)]), '%s:len%d' % (kind, n)
         if cls == 'known': continue
+        # observation lines (code <-> model only): every history of length <= 1 (quick) / <= 2 (thorough) followed by each observer
+        O = observers(A) if op == 'hist' else []
+        for n in range(2 if tier == 'quick' else 3):
+            for seq in itertools.product(A, repeat=n):
+                for o in O:
+                    yield mkline('histo', kind, cfg, seq, o), '%s:observe%d' % (kind, n)
         # seeded longer histories
         if tier == 'quick':
             for _ in range(16 if cls == 'slow' else 40):
